@@ -63,7 +63,7 @@ Sqrt2Pat(a,d) == [r \in 1..d |->                       \* <<p,q>> = p + q sqrt2
 \* the catalogue
 ConjCodesOf(d) == IF Tier = 1 \/ d <= 4 THEN RgsCodes(d)
                 ELSE { c \in RgsCodes(d) : (c*7 + d) % (IF d = 5 THEN 3 ELSE 10) = 0 \/ NBlocks(c,d) \in {1,2,d} }
-NearCodesOf(d) == { c \in RgsCodes(d) : NBlocks(c,d) < d /\ (d = 3 \/ Tier = 1 \/ (c*5 + d) % 4 = 0) }
+NearCodesOf(d) == { c \in RgsCodes(d) : NBlocks(c,d) < d /\ (d <= 3 \/ Tier = 1 \/ (c*5 + d) % 4 = 0) }
 ConjAll == TLCEval([d \in 2..6 |-> ConjCodesOf(d)])
 NearAll == TLCEval([d \in 2..6 |-> NearCodesOf(d)])
 ConjCodes(d) == ConjAll[d]
